@@ -21,8 +21,6 @@ import (
 	"verif/harness/vcli"
 )
 
-var rhp4err = rhp4.RPCError{Code: rhp4.ErrorCodeHostError, Description: "injected by the man-in-the-middle"}
-
 // c10Case is the fully expanded case written to replay files.
 type c10Case struct {
 	RPC     string     `json:"rpc"`
@@ -51,6 +49,12 @@ type exchange struct {
 	oracle    func(res any, seen *recorded) []finding
 	custom    customMut
 	customOps []mutation
+	// forge, if set, computes the revision the renter derives from the delivered
+	// (possibly mutated) first host message; the operator "forge-sig" on the
+	// final host message then replaces whatever the honest host answered by a
+	// signature of the REAL host key over that revision - a coherent malicious
+	// host instead of a merely noisy one
+	forge func(seen *recorded) (types.V2FileContract, bool)
 	// after runs behind the quiescence barrier and re-synchronises the renter's
 	// view with the host's committed state
 	after func() error
@@ -193,7 +197,35 @@ func (f *family) runCase(sc *scenario, variant string, muts []mutation, donor *r
 			deadline = silentDeadline
 		}
 	}
-	f.lab.T.SetHook(faultHook(muts, donor, ex.custom, ap))
+	custom := func(m *rhpmitm.Msg, mu mutation, seen *recorded) bool {
+		if mu.Op == "forge-sig" {
+			if ex.forge == nil {
+				return false
+			}
+			rev, ok := ex.forge(seen)
+			if !ok {
+				return false
+			}
+			sig := f.lab.HostKey.SignHash(f.lab.HostNode.CM.TipState().ContractSigHash(rev))
+			switch m.Name {
+			case "append":
+				m.Obj = &rhp4.RPCAppendSectorsThirdResponse{HostSignature: sig}
+			case "free":
+				m.Obj = &rhp4.RPCFreeSectorsThirdResponse{HostSignature: sig}
+			case "replenish-accounts", "replenish-pools":
+				m.Obj = &rhp4.RPCReplenishAccountsThirdResponse{HostSignature: sig}
+			default:
+				return false
+			}
+			m.Err = nil
+			return true
+		}
+		if ex.custom != nil {
+			return ex.custom(m, mu, seen)
+		}
+		return false
+	}
+	f.lab.T.SetHook(faultHook(muts, donor, custom, ap))
 	out := monitoredCall(deadline, ex.call)
 	f.lab.T.SetHook(nil)
 	r := f.r
@@ -278,6 +310,7 @@ func (f *family) run() {
 		}
 		recs := make([]*recorded, len(sc.variants))
 		tables := make([][]mutation, len(sc.variants))
+		forgeable := make([]bool, len(sc.variants))
 		for i, v := range sc.variants {
 			rec, ex := f.honest(sc, v)
 			if f.dead {
@@ -285,6 +318,7 @@ func (f *family) run() {
 			}
 			recs[i] = rec
 			tables[i] = f.buildTable(sc, rec, ex)
+			forgeable[i] = ex.forge != nil && rec.get(rhpmitm.HostToRenter, 1) != nil
 		}
 		for i, v := range sc.variants {
 			donor := recs[(i+1)%len(recs)]
@@ -298,6 +332,10 @@ func (f *family) run() {
 					continue
 				}
 				f.runCase(sc, v, []mutation{mu}, donor)
+				if forgeable[i] && mu.Msg == 0 && mu.Path != "" {
+					f.runCase(sc, v, []mutation{mu, {Dir: "H", Msg: 1, Op: "forge-sig"}}, donor)
+					r.Count("coherent_forgery_cases", 1)
+				}
 			}
 			r.Count("table_size:"+sc.rpc, len(tbl))
 			if r.Thorough() && len(tbl) > 1 {
@@ -780,6 +818,24 @@ func buildAppendFreeFamily(f *family) error {
 			},
 			after: c.resync,
 		}
+		ex.forge = func(seen *recorded) (types.V2FileContract, bool) {
+			h0 := seen.get(rhpmitm.HostToRenter, 0)
+			if h0 == nil || h0.Err != nil {
+				return types.V2FileContract{}, false
+			}
+			resp := h0.Obj.(*rhp4.RPCAppendSectorsResponse)
+			if len(resp.Accepted) != len(req) {
+				return types.V2FileContract{}, false
+			}
+			n := 0
+			for _, a := range resp.Accepted {
+				if a {
+					n++
+				}
+			}
+			rev, _, err := rhp4.ReviseForAppendSectors(prev.Revision, l.Prices, resp.NewMerkleRoot, uint64(n))
+			return rev, err == nil
+		}
 		ex.custom, ex.customOps = resignCustom(l, "append", 1, func(alt string) (types.V2FileContract, bool) {
 			// the genuine successor as the honest host computes it
 			model := append([]types.Hash256(nil), prevRoots...)
@@ -835,6 +891,15 @@ func buildAppendFreeFamily(f *family) error {
 			},
 			after: c.resync,
 		}
+		ex.forge = func(seen *recorded) (types.V2FileContract, bool) {
+			h0 := seen.get(rhpmitm.HostToRenter, 0)
+			if h0 == nil || h0.Err != nil {
+				return types.V2FileContract{}, false
+			}
+			resp := h0.Obj.(*rhp4.RPCFreeSectorsResponse)
+			rev, _, err := rhp4.ReviseForFreeSectors(prev.Revision, l.Prices, resp.NewMerkleRoot, ndel)
+			return rev, err == nil
+		}
 		ex.custom, ex.customOps = resignCustom(l, "free", 1, func(alt string) (types.V2FileContract, bool) {
 			rev, _, err := rhp4.ReviseForFreeSectors(prev.Revision, l.Prices, rhp4.MetaRoot(model), ndel)
 			return rev, err == nil
@@ -882,7 +947,7 @@ func resignCustom(l *rhpmitm.Lab, rpc string, msgIdx int, genuine func(alt strin
 	for _, a := range resignAlterations {
 		ops = append(ops, mutation{Dir: "H", Msg: msgIdx, Op: "resign:" + a})
 	}
-	return func(m *rhpmitm.Msg, mu mutation) bool {
+	return func(m *rhpmitm.Msg, mu mutation, _ *recorded) bool {
 		alt, ok := strings.CutPrefix(mu.Op, "resign:")
 		if !ok || m.Err != nil {
 			return false
@@ -975,7 +1040,8 @@ func buildAccountFamily(f *family) error {
 		var total types.Currency
 		for _, d := range deposits {
 			if d.Amount.Cmp(target) > 0 {
-				fs = append(fs, finding{rpc + ":deposit-above-target", "a returned deposit exceeds the target", d})
+				// not demanded by the statement (only the total is bounded): observed only
+				f.r.Count("replenish_success_with_single_deposit_above_target", 1)
 			}
 			total = total.Add(d.Amount)
 		}
@@ -1043,6 +1109,18 @@ func buildAccountFamily(f *family) error {
 			},
 			after: c.resync,
 		}
+		ex.forge = func(seen *recorded) (types.V2FileContract, bool) {
+			h0 := seen.get(rhpmitm.HostToRenter, 0)
+			if h0 == nil || h0.Err != nil {
+				return types.V2FileContract{}, false
+			}
+			total := h0.Obj.(*rhp4.RPCReplenishAccountsResponse).TotalCost()
+			if total.IsZero() {
+				return types.V2FileContract{}, false
+			}
+			rev, _, err := rhp4.ReviseForReplenish(prev.Revision, total)
+			return rev, err == nil
+		}
 		ex.custom, ex.customOps = resignCustom(l, "replenish-accounts", 1, func(string) (types.V2FileContract, bool) {
 			fresh := 0
 			for _, a := range accs {
@@ -1097,6 +1175,18 @@ func buildAccountFamily(f *family) error {
 				return replenishOracle("replenish-pools", prev, len(pools), got.Revision, got.Deposits)
 			},
 			after: c.resync,
+		}
+		ex.forge = func(seen *recorded) (types.V2FileContract, bool) {
+			h0 := seen.get(rhpmitm.HostToRenter, 0)
+			if h0 == nil || h0.Err != nil {
+				return types.V2FileContract{}, false
+			}
+			total := h0.Obj.(*rhp4.RPCReplenishAccountsResponse).TotalCost()
+			if total.IsZero() {
+				return types.V2FileContract{}, false
+			}
+			rev, _, err := rhp4.ReviseForReplenish(prev.Revision, total)
+			return rev, err == nil
 		}
 		ex.custom, ex.customOps = resignCustom(l, "replenish-pools", 1, func(string) (types.V2FileContract, bool) {
 			fresh := 0
@@ -1212,7 +1302,7 @@ func buildFormFamily(f *family) error {
 			},
 			after: func() error { return mineIfPooled(l) },
 		}
-		ex.custom = func(m *rhpmitm.Msg, mu mutation) bool {
+		ex.custom = func(m *rhpmitm.Msg, mu mutation, _ *recorded) bool {
 			alt, ok := strings.CutPrefix(mu.Op, "resign:")
 			if !ok || m.Err != nil {
 				return false
@@ -1422,7 +1512,7 @@ func buildRenewalFamily(f *family, rpc string) error {
 				return mineIfPooled(l)
 			},
 		}
-		ex.custom = func(m *rhpmitm.Msg, mu mutation) bool {
+		ex.custom = func(m *rhpmitm.Msg, mu mutation, _ *recorded) bool {
 			alt, ok := strings.CutPrefix(mu.Op, "resign:")
 			if !ok || m.Err != nil {
 				return false
